@@ -55,6 +55,21 @@ UPDATE_ACTIONS = ['update', 'error_update', 'reply', 'changed', 'error_read']
 # ----------------------------------------------------------------------------------------
 # generated nodes / descriptions
 # ----------------------------------------------------------------------------------------
+INT_MARKS = sorted({s * (b + d) for s in (1, -1) for b in (0, 2 ** 24, 2 ** 31, 2 ** 32, 2 ** 53, 2 ** 62, 2 ** 63, 2 ** 64)
+                    for d in (-2, -1, 0, 1, 2, 3)} | {0x0123456789abcdef, -0x0fedcba987654321, 10 ** 16 + 1, 10 ** 18 + 7})
+FLOAT_MARKS = [0.0, -0.0, 1.0, -1.0, 0.1, 1 / 3, 2.5, 1e-300, 5e-324, 2.2250738585072014e-308, 1e15 + 0.5, 2.0 ** 53, 2.0 ** 53 + 2,
+               -2.0 ** 63, 1e22, 1.7976931348623157e308, -1.7976931348623157e308, 123456789.12345679, 4.35, 1e-7]
+
+
+def int_catalogue(rng, lo, hi):
+    """boundary catalogue for an integer range: the limits, their neighbours, and the marks where a conversion through a
+    double, a 32 bit or a 64 bit integer would show (every one an exact Python int inside [lo, hi])"""
+    cands = [lo, hi, lo + 1, hi - 1] + [x for x in INT_MARKS if lo <= x <= hi]
+    cands += [rng.randint(lo, hi) for _ in range(3)]                      # uniformly: mostly of the magnitude of the range
+    cands += [rng.randint(max(lo, -1000), min(hi, 1000))] if lo <= 1000 and hi >= -1000 else []
+    return [x for x in cands if lo <= x <= hi]
+
+
 def gen_datatype(rng, depth=0):
     """-> (datatype, value generator giving a member of its value set as the Python side holds it)"""
     from frappy import datatypes as D
@@ -63,16 +78,20 @@ def gen_datatype(rng, depth=0):
         kinds += ['array', 'tuple', 'struct']
     k = rng.choice(kinds)
     if k == 'float':
-        lo, hi = rng.choice([(None, None), (0, 10), (-5.5, 5.5), (1e-3, 1e9)])
+        lo, hi = rng.choice([(None, None), (None, None), (0, 10), (-5.5, 5.5), (1e-3, 1e9)])
         dt = D.FloatRange(lo, hi) if lo is not None else D.FloatRange()
         a, b = (lo, hi) if lo is not None else (-1e6, 1e6)
-        gen = lambda r: r.choice([a, b, (a + b) / 2, a + (b - a) * r.random(), round(a + (b - a) * r.random(), 2)])
+        marks = [x for x in FLOAT_MARKS if lo is None or lo <= x <= hi]
+        gen = lambda r: r.choice([a, b, (a + b) / 2, a + (b - a) * r.random(), round(a + (b - a) * r.random(), 2),
+                                  r.choice(marks), r.choice(marks)])
     elif k == 'int':
-        lo, hi = rng.choice([(0, 10), (-3, 3), (-2 ** 24, 2 ** 24), (5, 5)])
+        lo, hi = rng.choice([(0, 10), (-3, 3), (-2 ** 24, 2 ** 24), (5, 5), (0, 2 ** 64 - 1), (-2 ** 63, 2 ** 63 - 1),
+                             (0, 2 ** 32 - 1), (-2 ** 53 - 5, 2 ** 53 + 5), (-2 ** 64, 2 ** 64), (10 ** 15, 10 ** 17)])
         dt = D.IntRange(lo, hi)
-        gen = lambda r: r.choice([lo, hi, r.randint(lo, hi)])
+        gen = lambda r: r.choice(int_catalogue(r, lo, hi))
     elif k == 'scaled':
-        scale, lo, hi = rng.choice([(0.1, 0, 10), (0.25, -4, 4), (1e-3, 0, 1), (7, -70, 700)])
+        scale, lo, hi = rng.choice([(0.1, 0, 10), (0.25, -4, 4), (1e-3, 0, 1), (7, -70, 700), (0.5, -2.0 ** 40, 2.0 ** 40),
+                                    (1, -2 ** 53, 2 ** 53)])
         dt = D.ScaledInteger(scale, lo, hi)
         gen = lambda r: r.choice([lo, hi, scale * r.randint(int(round(lo / scale)), int(round(hi / scale)))])
     elif k == 'enum':
@@ -556,9 +575,19 @@ def gen_value(rng, dinfo, wrong=0.15):
     t = dinfo.get('type')
     if t == 'double':
         lo, hi = dinfo.get('min', -100.0), dinfo.get('max', 100.0)
-        return rng.choice([lo, hi, round(lo + (min(hi, lo + 1e6) - lo) * rng.random(), 3), int(lo)])
+        marks = [x for x in FLOAT_MARKS if ('min' not in dinfo or lo <= x) and ('max' not in dinfo or x <= hi)] or [lo]
+        return rng.choice([lo, hi, round(lo + (min(hi, lo + 1e6) - lo) * rng.random(), 3), int(lo), rng.choice(marks),
+                           rng.choice(marks), int(rng.choice(marks))])
     if t == 'int':
-        return rng.randint(dinfo.get('min', -5), min(dinfo.get('max', 5), dinfo.get('min', -5) + 1000))
+        lo, hi = dinfo.get('min', -2 ** 24), dinfo.get('max', 2 ** 24)
+        r = rng.random()
+        if r < 0.6:
+            return rng.choice(int_catalogue(rng, lo, hi))
+        if r < 0.75:                                             # a whole-number float (accepted), also beyond 2**53
+            return float(rng.choice(int_catalogue(rng, lo, hi)))
+        if r < 0.85:                                             # outside the declared range (import does not check limits)
+            return rng.choice(INT_MARKS)
+        return rng.randint(lo, min(hi, lo + 1000))
     if t == 'scaled':
         return rng.randint(dinfo['min'], dinfo['max'])
     if t == 'enum':
@@ -774,33 +803,13 @@ class Served:
         self.thread.join(5)
 
 
-def pyeq(a, b):
-    """Python equality, with containers compared element-wise and tuple == list (the wire has only lists)"""
-    if isinstance(a, (list, tuple)) and isinstance(b, (list, tuple)):
-        return len(a) == len(b) and all(pyeq(x, y) for x, y in zip(a, b))
-    if isinstance(a, dict) and isinstance(b, dict):
-        return set(a) == set(b) and all(pyeq(a[k], b[k]) for k in a)
-    try:
-        return bool(a == b)
-    except Exception:
-        return False
-
-
-def is_truncation(got, passed):
-    """`got` is `passed` with some sequence cut short (signature of F06: ArrayOf.validate zips with the stored value)"""
-    if isinstance(got, (list, tuple)) and isinstance(passed, (list, tuple)):
-        return len(got) <= len(passed) and all(pyeq(g, x) or is_truncation(g, x) for g, x in zip(got, passed)) \
-            and not pyeq(got, passed)
-    if isinstance(got, dict) and isinstance(passed, dict):
-        return set(got) == set(passed) and all(pyeq(got[k], passed[k]) or is_truncation(got[k], passed[k]) for k in got) \
-            and not pyeq(got, passed)
-    return False
-
-
-def e2e_case(rng, nvalues, with_proxy, res):
-    """one generated node, `nvalues` writes through a real client (and through a proxy module in front of it).
+def e2e_case(rng, nvalues, with_proxy, res, driver):
+    """one generated node, `nvalues` writes through a real client (and through a proxy module in front of it); every
+    observed write (value passed, what the driver's write function got and returned, what setParameter returned, the cache
+    entry, its time stamp) is judged by the Lean monitor (`judge_e2e`: Spec.C12.writeOkB with Python's `==` as PVal.pyEq).
     -> list of failures {'what', 'sig', 'detail'}"""
     from frappy.client import SecopClient
+    from vlib.dtcodec import fj
     fails = []
     dlog = DriverLog()
     node, info = gen_node(rng, dlog, writable_all=True, nmods=rng.randint(1, 2))
@@ -808,6 +817,8 @@ def e2e_case(rng, nvalues, with_proxy, res):
     client = None
     pnode = None
     pclient = None
+    pending = []        # (request for the monitor, text describing the case, detail)
+    errobs = []
     try:
         client = SecopClient('localhost:%d' % srv.port, log=None)
         seen = []
@@ -840,28 +851,24 @@ def e2e_case(rng, nvalues, with_proxy, res):
                     cache = psec.cache          # the cache of the proxy node's own client
                     got_back = getattr(proxies[m], 'write_' + p)(v)
                     err = cache[m, p].readerror
-                ts = cache[m, p].timestamp
+                entry = cache[m, p]
+                ts = entry.timestamp
             except Exception as e:
                 fails.append({'sig': 'C12:e2e:raises:' + type(e).__name__, 'what': f'{via}: writing {v!r} to {m}:{p} ({dt!r}) raised {e!r}',
                               'detail': {'type': repr(dt), 'value': repr(v), 'via': via}})
                 continue
             t_after = _time.time()
-            w = [x for x in dlog.writes if x[0] == m and x[1] == p]
-            expect_back = back if back is not None else (w[0][2] if w else None)
-            ok_driver = len(w) == 1 and pyeq(w[0][2], v)
-            ok_cache = err is None and pyeq(got_back, expect_back) and pyeq(cache[m, p].value, expect_back)
-            ok_time = ts is not None and ts <= t_after + 1e-6
-            if not (ok_driver and ok_cache and ok_time):
-                which = 'driver' if not ok_driver else 'cache' if not ok_cache else 'timestamp'
-                sig = f'C12:e2e:{which}:{type(dt).__name__}'
-                if which == 'driver' and len(w) == 1 and is_truncation(w[0][2], v):
-                    sig = 'C12:e2e:array-truncated-to-stored-length'
-                fails.append({'sig': sig,
-                              'what': f'{via}: wrote {v!r} to {m}:{p} ({dt!r}); driver got {[x[2] for x in w]!r}, returned '
-                                      f'{expect_back!r}; cache has {cache[m, p]!r} (ts {ts!r} vs clock {t_after!r})',
-                              'detail': {'type': repr(dt), 'value': repr(v), 'via': via}})
-            else:
-                res.nontriv(['e2e', type(dt).__name__, canon(v), canon(expect_back), via])
+            w = [x[2] for x in dlog.writes if x[0] == m and x[1] == p]
+            returned = back if back is not None else (w[0] if w else None)      # what the driver's write function returned
+            req = {'p': PROP, 'k': 'judge_e2e', 'passed': pval(v), 'got': [pval(x) for x in w],
+                   'returned': None if returned is None else pval(returned),
+                   'ret': None if err is not None else pval(got_back),
+                   'cache': None if entry.readerror is not None else pval(entry.value),
+                   'ts': fj(ts) if isinstance(ts, (int, float)) and not isinstance(ts, bool) else None, 'clock': fj(t_after + 1e-6)}
+            pending.append((req, f'{via}: wrote {v!r} to {m}:{p} ({dt!r}); driver got {w!r}, returned {returned!r}; setParameter '
+                                 f'gave {got_back!r} (error {err!r}); cache has {entry!r} (ts {ts!r} vs clock {t_after!r})',
+                            {'type': repr(dt), 'tname': type(dt).__name__, 'value': repr(v), 'via': via,
+                             'nt': ['e2e', type(dt).__name__, canon(v), canon(returned), via]}))
         # ---- read errors: every error class of errors.py raised by a driver comes back as that class with that text
         import frappy.errors as fe
         classes = sorted((c for c in fe.SECoPError.clsname2class.values() if c.__module__ == 'frappy.errors'), key=lambda c: c.__name__)
@@ -871,22 +878,16 @@ def e2e_case(rng, nvalues, with_proxy, res):
             dlog.read_error = cls(text)
             res.evaluations += 1
             res.count('e2e.read_error')
-            n0 = len(seen)
             try:
                 item = client.readParameter(m, 'bad')
-                e = item.readerror
-                ok = type(e) is cls and e.args == (text,) and item.value is None
+                obs = content_obs(item.value, item.readerror)
                 shown = repr(item)
             except Exception as ex:
-                ok, shown = False, 'raised %r' % ex
+                obs, shown = None, 'raised %r' % ex
             finally:
                 dlog.read_error = None
-            if not ok:
-                fails.append({'sig': 'C12:e2e:read-error:' + cls.__name__,
-                              'what': f'driver raised {cls.__name__}({text!r}) in read_bad of {m}; readParameter gave {shown}',
-                              'detail': {'class': cls.__name__, 'text': text}})
-            else:
-                res.nontriv(['e2e-read-error', cls.__name__, text])
+            errobs.append(({'p': PROP, 'k': 'judge_read_error', 'pycls': cls.__name__, 'name': str(cls.name), 'text': text, 'obs': obs},
+                           cls.__name__, text, m, shown))
     finally:
         for c in (client,):
             if c is not None:
@@ -897,6 +898,24 @@ def e2e_case(rng, nvalues, with_proxy, res):
         if pnode is not None:
             close_proxy_node(pnode)
         srv.close()
+    answers = driver.batch([r for r, _t, _d in pending] + [r for r, *_ in errobs])
+    for (req, text, detail), a in zip(pending, answers):
+        if 'driver_error' in a:
+            raise RuntimeError(f'driver error: {a} for {req}')
+        if a['ok']:
+            res.nontriv(detail.pop('nt'))
+        else:
+            detail.pop('nt')
+            fails.append({'sig': f'C12:e2e:{a["which"]}:{detail["tname"]}', 'what': text, 'detail': detail})
+    for (req, clsname, text, m, shown), a in zip(errobs, answers[len(pending):]):
+        if 'driver_error' in a:
+            raise RuntimeError(f'driver error: {a} for {req}')
+        if a['ok']:
+            res.nontriv(['e2e-read-error', clsname, text])
+        else:
+            fails.append({'sig': 'C12:e2e:read-error:' + clsname,
+                          'what': f'driver raised {clsname}({text!r}) in read_bad of {m}; readParameter gave {shown}',
+                          'detail': {'class': clsname, 'text': text}})
     return fails
 
 
@@ -1137,7 +1156,7 @@ def run(ctx):
     while done < nvals:
         sub = f'{PROP}:e2e:{ctx.seed}:{int(ctx.escalated)}:{ctx.tier}:{idx}'      # every node has its own PRNG: replayable alone
         with_proxy = idx % 2 == 1
-        fails = e2e_case(random.Random(sub), per_node, with_proxy=with_proxy, res=res)
+        fails = e2e_case(random.Random(sub), per_node, with_proxy=with_proxy, res=res, driver=ctx.driver)
         idx += 1
         done += per_node
         res.traces += per_node
@@ -1158,7 +1177,7 @@ def replay(ctx, rp):
     case = rp['case']
     if case['kind'] == 'e2e':
         import random
-        fails = e2e_case(random.Random(case['sub']), case['nvalues'], with_proxy=case['with_proxy'], res=Result())
+        fails = e2e_case(random.Random(case['sub']), case['nvalues'], with_proxy=case['with_proxy'], res=Result(), driver=ctx.driver)
         for f in fails:
             print(f['sig'], '-', f['what'])
         same = [f for f in fails if f['sig'] == case.get('sig')]
